@@ -22,17 +22,23 @@ func main() {
 		fmt.Fprintln(os.Stderr, "usage: vh <command> [flags]")
 		os.Exit(2)
 	}
-	switch os.Args[1] {
-	case "shard":
-		cmdShard(os.Args[2:])
-	case "mgr":
-		cmdMgr(os.Args[2:])
-	case "killchild":
-		cmdKillChild(os.Args[2:])
-	default:
-		fmt.Fprintln(os.Stderr, "unknown command", os.Args[1])
-		os.Exit(2)
+	if fn, ok := commands[os.Args[1]]; ok {
+		fn(os.Args[2:])
+		return
 	}
+	fmt.Fprintln(os.Stderr, "unknown command", os.Args[1])
+	os.Exit(2)
+}
+
+// commands is the sub-command registry; files cmd_*.go add to it from init().
+var commands = map[string]func(args []string){}
+
+func register(name string, fn func(args []string)) { commands[name] = fn }
+
+func init() {
+	register("shard", cmdShard)
+	register("mgr", cmdMgr)
+	register("killchild", cmdKillChild)
 }
 
 func cmdShard(args []string) {
